@@ -21,6 +21,58 @@ Theorem pack_fixed_width_refuted :
                    pack r s <> fixed_pack bits r s /\ zlen (pack r s) = 130 /\ zlen (fixed_pack bits r s) = 132.
 Proof. exact C19.Proofs.pack_fixed_width_refuted. Qed.
 
+(* ---- canonicalisation *)
+(* 1. the faithful model of SerializeCanonical (tree rewriting: pullDown, pushDown, walkAttributes) equals its top-down
+      form in which the pending declarations travel with the recursion *)
+Theorem relic_is_top_down : forall ctx n, relic_c14n ctx n = relic_c14n_td ctx n.
+Proof. exact C19.Proofs.relic_is_top_down. Qed.
+(* 2. one step of the simulation: whenever the carried declarations D are related to the two namespace environments
+      of exc-c14n by Inv, and the subtree satisfies the clauses of K, relic's bytes are the W3C bytes *)
+Theorem walkD_is_spec : forall n inscope rendered D,
+  kind_of n = 0 -> k_codes inscope rendered n = [] -> Inv D inscope rendered ->
+  write_node (walkD D n) = exc_node inscope rendered n.
+Proof. exact C19.Proofs.walkD_is_spec. Qed.
+(* 3. MAIN: on the decidable class K (no PI child, no xmlns="" on an ancestor, no declaration that repeats what the
+      output ancestors rendered, attribute order by prefix = order by namespace URI, no attribute named *:xmlns, distinct
+      attribute names) relic's canonical form IS W3C Exclusive XML Canonicalization, for every context and every tree *)
+Theorem relic_eq_spec_on_K : forall ctx n, inK ctx n = true -> relic_c14n ctx n = exc_c14n ctx n.
+Proof. exact C19.Proofs.relic_eq_spec_on_K. Qed.
+(* 4. the documents relic builds are in K for all parameter values: SignedInfo below Signature (with or without the Id
+      that appmanifest adds) in any K-context, and the VSIX package Object for any list of parts *)
+Theorem signed_info_in_K : forall ref_id hash_alg sig_alg digest c14n id_attr outer,
+  ctx_codes outer = [] ->
+  inK (sig_ctx (match id_attr with Some v => [mkattr [] s_Id v] | None => [] end) outer)
+      (signed_info ref_id hash_alg sig_alg digest c14n) = true.
+Proof. exact C19.Proofs.signed_info_in_K. Qed.
+Theorem vsix_object_in_K : forall refs hash_uri fmt time,
+  inK (sig_ctx [] []) (vsix_object refs hash_uri ns_digsig fmt time) = true.
+Proof. exact C19.Proofs.vsix_object_in_K. Qed.
+(* 5. re-serialisations that preserve canonical meaning do not change the W3C canonical form: comments anywhere,
+      splitting of character data (CDATA sections, entities), replacement of a child by an equivalent child; the
+      faithful model ignores comments too *)
+Theorem spec_comment_invariant : forall e r s t a l1 d l2,
+  exc_node e r (Elem s t a (l1 ++ Comment d :: l2)) = exc_node e r (Elem s t a (l1 ++ l2)).
+Proof. exact C19.Proofs.spec_comment_invariant. Qed.
+Theorem spec_text_split_invariant : forall e r s t a l1 d1 d2 l2,
+  exc_node e r (Elem s t a (l1 ++ CharData (d1 ++ d2) :: l2)) = exc_node e r (Elem s t a (l1 ++ CharData d1 :: CharData d2 :: l2)).
+Proof. exact C19.Proofs.spec_text_split_invariant. Qed.
+Theorem spec_child_congruence : forall e r s t a l1 c c' l2,
+  exc_node (fst (child_env e r s a)) (snd (child_env e r s a)) c = exc_node (fst (child_env e r s a)) (snd (child_env e r s a)) c' ->
+  exc_node e r (Elem s t a (l1 ++ c :: l2)) = exc_node e r (Elem s t a (l1 ++ c' :: l2)).
+Proof. exact C19.Proofs.spec_child_congruence. Qed.
+Theorem relic_comment_invariant : forall ctx s t a l1 d l2,
+  relic_c14n ctx (Elem s t a (l1 ++ Comment d :: l2)) = relic_c14n ctx (Elem s t a (l1 ++ l2)).
+Proof. exact C19.Proofs.relic_comment_invariant. Qed.
+
+From Coq Require Import String.
+Local Open Scope string_scope.
+(* non-vacuity: a ClickOnce-like subtree with default and prefixed namespaces declared at ancestors is in K *)
+Example inK_example :
+  let t := E "" "dependency" [] [E "asmv2" "x" [A "asmv2" "a" "1"; A "" "b" "2"] [CharData (s2b "t"); Comment (s2b "c")]; E "dsig" "T" [A "xmlns" "dsig" "urn:d"] []] in
+  let ctx := [[A "xmlns" "asmv2" "urn:v2"; A "" "xmlns" "urn:v1"; A "xmlns" "unused" "urn:u"]] in
+  inK ctx t = true /\ wf_doc ctx t = true /\ relic_c14n ctx t = exc_c14n ctx t.
+Proof. vm_compute. repeat split. Qed.
+
 (* ---- canonicalisation: outside K the faithful model differs from W3C exc-c14n; one witness per clause *)
 Theorem pi_dropped_refuted : diverges [] w_pi 1.
 Proof. exact C19.Proofs.pi_dropped_refuted. Qed.
